@@ -1,2 +1,51 @@
-(* C03 - theorems follow in this commit series *)
-From TW Require Import Bytes.
+(* C03 - @each/@for: loop metadata, break/continue through nested blocks, @else, non-arrays. *)
+From Coq Require Import String.
+From TW Require Import Bytes Floats Values Ast Eval Expr Template Control.
+
+(* the marker scan of evaluator/utils.go finds a marker exactly when one sits somewhere in the
+   nested Block structure: @break / @continue under any depth of @if blocks reach the loop *)
+Theorem C03_break_marker_found_at_any_depth v : has_break v = true <-> holds_break v.
+Proof. exact (has_break_iff v). Qed.
+Print Assumptions C03_break_marker_found_at_any_depth.
+
+Theorem C03_continue_marker_found_at_any_depth v : has_continue v = true <-> holds_continue v.
+Proof. exact (has_continue_iff v). Qed.
+Print Assumptions C03_continue_marker_found_at_any_depth.
+
+Theorem C03_block_stops_at_marker cx f en s ss acc r :
+  eval_stmt cx f en s = Ok r ->
+  (has_break (fst r) || has_continue (fst r)) = true ->
+  eval_block cx (S f) en (s :: ss) acc = Ok (VBlock (rev (fst r :: acc)), snd r).
+Proof. exact (block_stops_at_marker cx f en s ss acc r). Qed.
+Print Assumptions C03_block_stops_at_marker.
+
+Theorem C03_loop_metadata i n :
+  loop_meta i n =
+  VObj [(bs "index", VInt (Z.of_nat i)); (bs "first", VBool (Nat.eqb i 0));
+        (bs "last", VBool (Nat.eqb (S i) n)); (bs "iter", VInt (Z.of_nat (S i)))].
+Proof. exact (loop_metadata i n). Qed.
+Print Assumptions C03_loop_metadata.
+
+Theorem C03_each_pass cx f ln var body len i x xs en out en1 r str :
+  env_set en var x = inl en1 ->
+  eval_block cx f (env_set_loop en1 i len) body [] = Ok r ->
+  str_of (fst r) = Ok str ->
+  each_loop cx (S f) ln var body len i (x :: xs) en out =
+  if has_break (fst r) then Ok (out ++ str, snd r)
+  else each_loop cx f ln var body len (S i) xs (snd r) (out ++ str).
+Proof. exact (each_pass cx f ln var body len i x xs en out en1 r str). Qed.
+Print Assumptions C03_each_pass.
+
+Theorem C03_each_empty_renders_else cx f en ln var arr body a :
+  eval_expr cx f ([] :: en) arr = Ok (VArr []) ->
+  eval_stmt cx (S f) en (SEach ln var arr body (Some a)) =
+  (let! r := eval_block cx f ([] :: en) a [] in Ok (fst r, tl (snd r))).
+Proof. exact (each_empty_renders_else cx f en ln var arr body a). Qed.
+Print Assumptions C03_each_empty_renders_else.
+
+Theorem C03_each_non_array_fails cx f en ln var arr body alt av :
+  eval_expr cx f ([] :: en) arr = Ok av ->
+  (match av with VArr _ => False | _ => True end) ->
+  exists msg, eval_stmt cx (S f) en (SEach ln var arr body alt) = Fail ln msg.
+Proof. exact (each_non_array_fails cx f en ln var arr body alt av). Qed.
+Print Assumptions C03_each_non_array_fails.
